@@ -515,6 +515,10 @@ theorem tde_hdr_scalar (enc : Enc) (toks : List TTok) (i : Nat) (n : Bytes) (bod
   | i64 => simpa [tde] using hleaf .i64 rfl
   | u64 => simpa [tde] using hleaf .u64 rfl
   | i32 => simpa [tde] using hleaf .i32 rfl
+  | i16 => simpa [tde] using hleaf .i16 rfl
+  | u16 => simpa [tde] using hleaf .u16 rfl
+  | i8 => simpa [tde] using hleaf .i8 rfl
+  | u8 => simpa [tde] using hleaf .u8 rfl
   | u32 => simpa [tde] using hleaf .u32 rfl
   | f64 => simpa [tde] using hleaf .f64 rfl
   | f32 => simpa [tde] using hleaf .f32 rfl
@@ -611,8 +615,8 @@ theorem tde_leaf_on_cont (enc : Enc) (toks : List TTok) (f : Nat) (ty : Ty) (h :
     | str s bo => exact absurd rfl (hnstr s bo)
     | seq s e => simp only [tStr, hrstr, hsh]
     | map s e => simp only [tStr, hrstr, hsh]
-  rcases typedLeaf_cases ty h with rfl | rfl | rfl | rfl | rfl | rfl | rfl | rfl
-  case inr.inr.inr.inr.inr.inr.inr => simp only [tde, hstr]; rfl
+  rcases typedLeaf_cases ty h with rfl | rfl | rfl | rfl | rfl | rfl | rfl | rfl | rfl | rfl | rfl | rfl
+  case inr.inr.inr.inr.inr.inr.inr.inr.inr.inr.inr => simp only [tde, hstr]; rfl
   all_goals simp only [tde, tLeaf, hrs, Option.bind, hsh]
 
 /-- tape path on the tokens of one value: the spec's value -/
